@@ -28,4 +28,9 @@ TEXT = {
    level='Proof for all versions and thresholds: gte == lexicographic >= on (major, minor), lt == its negation (Verus on extracted code, Kani on compiled code), and every gate is monotone in the version (Kani, all pairs).',
    note='Display/FromStr round-trip and rejection of malformed strings go through core::fmt / str::split / str::parse: outside Verus, and only bounded in CBMC (see evidence bounded_checks; never counted as proved).',
    design_ref='DESIGN.md §5 C20'),
+ 'C15': dict(
+   technique='Verus loop invariant on the extracted rollbacks_ (seen-set == ids visited so far) and contract on rollbacks (forward / reversed visiting order)',
+   level='Unbounded deductive proof (Verus/Z3) on the extracted bodies of Frame::rollbacks and rollbacks_: for any number of rows and any repetition pattern with ids in [-123, i32::MAX-123], the mask has one bool per row; keep-first marks row i iff some j<i has the same id, keep-last iff some j>i has. A second contract on the same body without the upper bound exposes the i32 overflow (known finding F9).',
+   note='Assumed: shim contracts for PrimitiveArray::values_iter/len, Iterator::enumerate/rev/max/next (sequence semantics from the std docs); rewrite rules R5 (for -> loop/next), R6 (map_or), R14 (named tail); the corollaries (one unmarked row per distinct id; no repeats => all false) follow from the stated postconditions and are not separately mechanised.',
+   design_ref='DESIGN.md §5 C15'),
 }
